@@ -8,6 +8,7 @@ import (
 	"errors"
 	"fmt"
 	"net"
+	"os"
 	"strconv"
 	"strings"
 	"sync"
@@ -472,7 +473,7 @@ func epDial(addr string, local net.IP) (*epConn, error) {
 
 // reply reads one (possibly multi-line) reply; code 0 = connection problem.
 func (c *epConn) reply() (int, string) {
-	c.c.SetReadDeadline(time.Now().Add(60 * time.Second))
+	c.c.SetReadDeadline(time.Now().Add(30 * time.Second))
 	var text []string
 	for {
 		line, err := c.br.ReadString('\n')
@@ -487,12 +488,24 @@ func (c *epConn) reply() (int, string) {
 	}
 }
 
+// epTrace (env C11_TRACE=1, for replays) prints the client side of every SMTP dialogue.
+var epTrace = os.Getenv("C11_TRACE") != ""
+
 func (c *epConn) cmd(format string, a ...any) (int, string) {
 	c.c.SetWriteDeadline(time.Now().Add(30 * time.Second))
+	t0 := time.Now()
 	if _, err := fmt.Fprintf(c.c, format+"\r\n", a...); err != nil {
 		return 0, err.Error()
 	}
-	return c.reply()
+	code, text := c.reply()
+	if epTrace {
+		line := fmt.Sprintf(format, a...)
+		if len(line) > 60 {
+			line = line[:60]
+		}
+		fmt.Printf("TRACE %s %v -> %q: %d %s (%d ms)\n", time.Now().Format("15:04:05.000"), c.c.LocalAddr(), line, code, text, time.Since(t0).Milliseconds())
+	}
+	return code, text
 }
 
 type epStats struct {
@@ -596,6 +609,17 @@ func (h *epHarness) runClient(ci int, st *epStats, onReply func(ti int, stage st
 			if code, _ := conn.cmd("%s again%d.example", hello, ci); code == 0 {
 				st.lost.Add(1)
 				return
+			}
+			if h.sc.Proto == "lmtp" {
+				// go-smtp keeps the recipient list of the aborted transaction across a
+				// repeated LHLO and would answer the next DATA with one status line too
+				// many (reply matching is a C03 matter; here it would only desynchronise
+				// this client and cost a 60 s read time-out). RSET clears the list; the
+				// abort under test has already happened in NewSession.
+				if code, _ := conn.cmd("RSET"); code == 0 {
+					st.lost.Add(1)
+					return
+				}
 			}
 			continue
 		case "quit":
@@ -750,6 +774,12 @@ func runEndpointCases(t *testing.T, r *rep.Reporter, env instrEnv) {
 	for i := 0; i < n; i++ {
 		idx := baseEndpoint + i
 		r.Run(idx, fmt.Sprintf("endpoint-%d", i), func(c *rep.Case) {
+			caseStart := time.Now()
+			defer func() {
+				if d := time.Since(caseStart); d > 20*time.Second {
+					r.Distinct("endpoint_cases_over_20s", fmt.Sprintf("endpoint-%d (%ds)", i, int(d.Seconds())))
+				}
+			}()
 			p := prng.New(r.Seed(), uint64(idx), "c11/endpoint")
 			sc := genEndpointScenario(p, i < nTimeout)
 			h, err := newEpHarness(sc)
